@@ -157,6 +157,8 @@ class FunctionVerifier:
             self.pc = []
             self.ctr = itertools.count()
             self.path_notes = []
+            self._nonneg, self._nonneg_keep = set(), []
+            self._fresh_ids, self._entry_ids, self._id_keep = set(), set(), []
             self.paths += 1
             if self.paths > self.max_paths:
                 raise VCError(f"{self.label}: more than {self.max_paths} paths")
@@ -218,6 +220,10 @@ class FunctionVerifier:
     def assume(self, cond):
         if z3.is_true(cond):
             return
+        i = cond.get_id()
+        for c in self.pc:
+            if c.get_id() == i:
+                return
         self.pc.append(cond)
 
     def oblige(self, goal, kind, label, where=""):
@@ -261,6 +267,9 @@ class FunctionVerifier:
                 v = mk_ref(v.t, self.recv_class, exact=True)
                 self.assume(typeof(v.t) == self.world.class_id(self.recv_class))
             env[pname] = v
+            if v.kind() in ("ref", "list"):
+                self._entry_ids.add(v.t.get_id())
+                self._id_keep.append(v.t)
             self.assume_wellformed(v, heap)
         self.pre_env = dict(env)
         self.pre_heap = heap.copy()
@@ -291,6 +300,8 @@ class FunctionVerifier:
             raise VCError(f"{self.label}: ensures/modifies differ from virtual:{self.func.name}")
         self.trace, self.prefix, self.pc = [], [], []
         self.ctr = itertools.count()
+        self._nonneg, self._nonneg_keep = set(), []
+        self._fresh_ids, self._entry_ids, self._id_keep = set(), set(), []
         self.paths += 1
         heap = Heap()
         self.heap = heap
@@ -338,8 +349,13 @@ class FunctionVerifier:
         rty = self.world.return_type(self.func)
         post = Ctx(self.env_for_post(), self.heap, spec=True, old=Ctx(self.pre_env, self.pre_heap, spec=True),
                    result=ret)
-        for label, clause in c.ensures_clauses():
-            self.oblige(self.eval_spec_bool(clause, post), "ensures", label, self.prog.loc(self.func.module, self.func.node))
+        self.proving = True
+        try:
+            for label, clause in c.ensures_clauses():
+                self.oblige(self.eval_spec_bool(clause, post), "ensures", label,
+                            self.prog.loc(self.func.module, self.func.node))
+        finally:
+            self.proving = False
         self.check_frame()
 
     def env_for_post(self):
@@ -578,6 +594,8 @@ class FunctionVerifier:
     # ------------------------------------------------------------ assignment
     def assign(self, tgt, val):
         if isinstance(tgt, ast.Name):
+            if self.contract is not None and tgt.id in self.contract.types and val.kind() not in ("tuple",):
+                val = self.coerce(val, parse_type(self.contract.types[tgt.id]), tgt)
             self.env[tgt.id] = val
         elif isinstance(tgt, ast.Attribute):
             ctx = Ctx(self.env, self.heap)
@@ -639,6 +657,8 @@ class FunctionVerifier:
                 if k == "list" and vk == "list":
                     if val.ty[1] != ty[1] and not (isinstance(val.ty[1], tuple) and isinstance(ty[1], tuple)):
                         if val.ty[1] == "?":
+                            if lkind_of(ty[1]) is not None:
+                                self.assume(lkind(val.t) == lkind_of(ty[1]))
                             return V(ty, val.t)
                         raise VCError(f"list element type mismatch {val.ty} vs {ty} at {self.where(node) if node else ''}")
                     return V(ty, val.t)
@@ -692,11 +712,11 @@ class FunctionVerifier:
         cname = obj.ty[1]
         fkey, fty = self.world.field_key(cname, attr, self.cur_class())
         a = heap.get(fkey, sort_of(fty))
-        t = z3.Select(a, obj.t)
+        t = self.sel(a, obj.t)
         k = fty if isinstance(fty, str) else fty[0]
         if k == "opt":
             an = heap.get(fkey + "?", BoolS)
-            return mk_opt(z3.Select(an, obj.t), t, fty[1])
+            return mk_opt(self.sel(an, obj.t), t, fty[1])
         v = V(fty, t)
         if k == "enum":
             ms = self.prog.classes[fty[1]].enum_members.values()
@@ -719,7 +739,7 @@ class FunctionVerifier:
     def list_len(self, l, heap):
         if isinstance(l.aux, Heap):
             heap = l.aux
-        return z3.Select(heap.get("LLen", IntS), l.t)
+        return self.sel(heap.get("LLen", IntS), l.t)
 
     def set_list_len(self, l, n):
         a = self.heap.get("LLen", IntS)
@@ -730,7 +750,7 @@ class FunctionVerifier:
             heap = l.aux
         ety = l.ty[1]
         key = elem_array_key(ety)
-        return z3.simplify(z3.Select(heap.get(key, z3.ArraySort(IntS, sort_of(ety))), l.t))
+        return z3.simplify(self.sel(heap.get(key, z3.ArraySort(IntS, sort_of(ety))), l.t))
 
     def set_list_arr(self, l, arr):
         ety = l.ty[1]
@@ -745,12 +765,15 @@ class FunctionVerifier:
         k = v.kind()
         if assume_wf and k in ("ref", "list"):
             n = self.list_len(l, heap)
-            facts = [t != NULL, birth(t) < heap.now]
+            facts = [birth(t) < heap.now]
+            nullable_elem = isinstance(ety, tuple) and len(ety) > 2
             if k == "ref" and ety[1] in self.prog.classes:
                 facts.append(self.subclass_cond(t, ety[1]))
             if k == "list":
                 facts.append(z3.Select(heap.get("LLen", IntS), t) >= 0)
-            self.assume(z3.Implies(z3.And(i >= 0, i < n), conj(facts)))
+            f = conj(facts)
+            f = z3.Or(t == NULL, f) if nullable_elem else z3.And(t != NULL, f)
+            self.assume(z3.Implies(z3.And(i >= 0, i < n), f))
         return v
 
     def list_store(self, l, i, val):
@@ -774,6 +797,8 @@ class FunctionVerifier:
 
     def alloc(self, name="obj", cls=None):
         r = self.fresh_ref_term(name)
+        self._fresh_ids.add(r.get_id())
+        self._id_keep.append(r)
         self.assume(birth(r) == self.heap.now)
         self.assume(r != NULL)
         nn = z3.Int(f"now!{next(self.ctr)}")
@@ -784,16 +809,73 @@ class FunctionVerifier:
             self.assume(lkind(r) == 0)
         return r
 
+    # ---- term hygiene: keep index arithmetic and heap reads small
+    def mark_nonneg(self, t):
+        self._nonneg.add(t.get_id())
+        self._nonneg_keep.append(t)
+
+    def is_nonneg(self, t):
+        t = z3.simplify(t)
+        if z3.is_int_value(t):
+            return t.as_long() >= 0
+        if t.get_id() in self._nonneg:
+            return True
+        if z3.is_app(t):
+            k = t.decl().kind()
+            if k == z3.Z3_OP_SEQ_LENGTH:
+                return True
+            if k == z3.Z3_OP_ADD:
+                return all(self.is_nonneg(c) for c in t.children())
+            if k == z3.Z3_OP_ITE:
+                return self.is_nonneg(t.arg(1)) and self.is_nonneg(t.arg(2))
+        return False
+
+    def norm_index(self, i, n):
+        """Python's negative-index rule; skipped when the index is syntactically known to be >= 0"""
+        if self.is_nonneg(i):
+            return z3.simplify(i)
+        return z3.simplify(z3.If(i < 0, i + n, i))
+
+    def known_distinct(self, a, b):
+        """fresh allocations of this path are distinct from each other and from the function's parameters"""
+        ia, ib = a.get_id(), b.get_id()
+        if ia == ib:
+            return False
+        fa, fb = ia in self._fresh_ids, ib in self._fresh_ids
+        if fa and fb:
+            return True
+        if fa and ib in self._entry_ids:
+            return True
+        if fb and ia in self._entry_ids:
+            return True
+        return False
+
+    def sel(self, arr, r):
+        """Select(arr, r) with stores at provably different references peeled off"""
+        while z3.is_app(arr) and arr.decl().kind() == z3.Z3_OP_STORE:
+            idx = arr.arg(1)
+            if idx.get_id() == r.get_id():
+                return arr.arg(2)
+            if self.known_distinct(idx, r):
+                arr = arr.arg(0)
+            else:
+                break
+        return z3.Select(arr, r)
+
     def checked_index(self, i, n, node):
         """Python index semantics on a sequence of length n; IndexError when out of range."""
-        ok = z3.And(i >= -n, i < n)
+        i = z3.simplify(i)
+        ok = (i < n) if self.is_nonneg(i) else z3.And(i >= -n, i < n)
         if not self.choose(ok):
             raise RaiseSig("IndexError", self.where(node))
-        return z3.If(i < 0, i + n, i)
+        return self.norm_index(i, n)
 
     def norm_index_clamp(self, i, n):
         """slice bound normalisation"""
-        return z3.If(i < 0, z3.If(i + n < 0, z3.IntVal(0), i + n), z3.If(i > n, n, i))
+        i = z3.simplify(i)
+        if self.is_nonneg(i):
+            return z3.simplify(z3.If(i > n, n, i))
+        return z3.simplify(z3.If(i < 0, z3.If(i + n < 0, z3.IntVal(0), i + n), z3.If(i > n, n, i)))
 
     # ------------------------------------------------------------ loops
     def loop_ordinal(self, node):
@@ -853,6 +935,7 @@ class FunctionVerifier:
         self.heap.now = nn
         k = z3.Int(f"k!{next(self.ctr)}")
         self.assume(k >= 0)
+        self.mark_nonneg(k)
         self.assume_inv(inv, k, st, mode)
         # --- continue or exit?
         if mode[0] == "range":
@@ -915,8 +998,12 @@ class FunctionVerifier:
 
     def check_inv(self, inv, k, phase, st, mode):
         ctx = self.inv_ctx(k, mode)
-        for label, clause in inv.clauses():
-            self.oblige(self.eval_spec_bool(clause, ctx), f"inv{inv.ordinal}-{phase}", label, self.where(st))
+        self.proving = True
+        try:
+            for label, clause in inv.clauses():
+                self.oblige(self.eval_spec_bool(clause, ctx), f"inv{inv.ordinal}-{phase}", label, self.where(st))
+        finally:
+            self.proving = False
 
     def assume_inv(self, inv, k, st, mode):
         ctx = self.inv_ctx(k, mode)
@@ -1336,21 +1423,21 @@ class FunctionVerifier:
         if k == "str":
             n = z3.Length(base.t)
             if ctx.spec:
-                i = z3.If(idx.t < 0, idx.t + n, idx.t)
+                i = self.norm_index(idx.t, n)
             else:
                 i = self.checked_index(idx.t, n, e)
             return mk_str(z3.SubString(base.t, i, 1))
         if k == "list":
             n = self.list_len(base, heap)
             if ctx.spec:
-                i = z3.If(idx.t < 0, idx.t + n, idx.t)
+                i = self.norm_index(idx.t, n)
                 return self.list_get(base, i, heap, assume_wf=False)
             i = self.checked_index(idx.t, n, e)
             return self.list_get(base, i, heap)
         if k == "listval":
             n, arr = base.t
-            i = z3.If(idx.t < 0, idx.t + n, idx.t)
-            return V(base.ty[1], z3.Select(arr, i))
+            i = self.norm_index(idx.t, n)
+            return V(base.ty[1], z3.simplify(z3.Select(arr, i)))
         if k == "tuple":
             if z3.is_int_value(z3.simplify(idx.t)):
                 j = z3.simplify(idx.t).as_long()
